@@ -1535,4 +1535,115 @@ theorem handler_after_takeover (env : Env) (known : List Known) (c : Cluster) (h
   · simp only [he, if_false, hfold, List.map_nil, List.filter_nil, List.foldl_nil]
     exact ⟨_, rfl, rfl⟩
 
+/-! ### what the applied configuration resolves to -/
+
+theorem addOrUpdateEndpoint_mem (env : Env) (tls : Option TLSClientConfig) (eps eps' : List Str) (e : Str)
+    (h : addOrUpdateEndpoint env tls eps e = .ok eps') : ∀ x, x ∈ eps' ↔ x ∈ eps ∨ x = e := by
+  unfold addOrUpdateEndpoint at h
+  split at h
+  · rename_i hc
+    cases h
+    intro x
+    constructor
+    · exact Or.inl
+    · rintro (h | rfl)
+      · exact h
+      · simpa using hc
+  · simp only [bind, Except.bind] at h
+    split at h
+    · cases h
+    · split at h
+      · cases h
+      · split at h
+        · cases h
+        · cases h
+          intro x; simp
+
+theorem foldEndpoints_mem (env : Env) (tls : Option TLSClientConfig) (l : List Str) : ∀ (st r : List Str),
+    foldM' (addOrUpdateEndpoint env tls) st l = .ok r → ∀ x, x ∈ r ↔ x ∈ st ∨ x ∈ l := by
+  induction l with
+  | nil => intro st r h; cases h; simp
+  | cons e l ih =>
+    intro st r h
+    simp only [foldM', bind, Except.bind] at h
+    split at h
+    · cases h
+    · rename_i st1 h1
+      have hm := addOrUpdateEndpoint_mem env tls st st1 e h1
+      have := ih st1 r h
+      intro x
+      rw [this x, hm x]
+      simp [or_assoc]
+
+/-- after a successful `syncEndpoints` the cluster holds exactly the endpoints the object names, each under the
+    string the object uses for it -/
+theorem syncEndpoints_mem (env : Env) (tls : Option TLSClientConfig) (eps r : List Str) (servers : List Server)
+    (h : syncEndpoints env tls eps servers = .ok r) : ∀ x, x ∈ r ↔ x ∈ servers.map (·.endpoint) := by
+  unfold syncEndpoints at h
+  have := foldEndpoints_mem env tls _ _ r h
+  intro x
+  rw [this x]
+  simp only [List.mem_filter, List.contains_iff_mem]
+  constructor
+  · rintro (⟨_, h2⟩ | h2)
+    · simpa using h2
+    · exact h2
+  · exact Or.inr
+
+theorem sync_endpoints_policies (env : Env) (ci ci' : ClusterInfo) (c : Cluster) (h : ci.sync env c = .ok ci')
+    (hn : ci.cluster = env.lower c.name) :
+    (∀ x, x ∈ ci'.endpoints ↔ x ∈ c.servers.map (·.endpoint)) ∧ ci'.policies = c.policies := by
+  unfold ClusterInfo.sync at h
+  split at h
+  · rename_i hne; exact absurd hn hne
+  · simp only [bind, Except.bind] at h
+    split at h
+    · cases h
+    · split at h
+      · cases h
+      · split at h
+        · cases h
+        · split at h
+          · cases h
+          · rename_i eps heps
+            cases h
+            exact ⟨syncEndpoints_mem env _ _ eps c.servers heps, rfl⟩
+
+theorem alGet_map_entryOf_some (l : List Schema) (hn : namesOK l = true) (s : Schema) (hs : s ∈ l) :
+    alGet (l.map entryOf) s.name = some ⟨expectedLocal s, s, none⟩ := by
+  induction l with
+  | nil => cases hs
+  | cons a l ih =>
+    simp only [namesOK, Bool.and_eq_true, decide_eq_true_eq, Bool.not_eq_true', List.contains_eq_mem,
+      decide_eq_false_iff_not, List.mem_map, not_exists, not_and] at hn
+    simp only [List.mem_cons] at hs
+    rcases hs with rfl | hs
+    · simp [alGet, entryOf]
+    · have hne : ¬ a.name = s.name := fun e => hn.1.2 s hs e.symm
+      simp only [List.map_cons, alGet, entryOf, hne, if_false]
+      exact ih hn.2 hs
+
+/-- what every dispatch policy of an applied valid object resolves to is what the object says -/
+theorem policies_resolve (env : Env) (known : List Known) (c : Cluster) (hv : valid env known c = true)
+    (ci ci' : ClusterInfo) (hs : ci.sync env c = .ok ci') (hn : ci.cluster = env.lower c.name) :
+    ci'.policies = c.policies ∧ (∀ x, x ∈ ci'.endpoints ↔ x ∈ c.servers.map (·.endpoint)) ∧
+    ∀ p ∈ c.policies, loadedUpstreams ci' p = resolveUpstreams ci' p ∧
+      (p.upstreamSubset ≠ [] → resolveUpstreams ci' p = p.upstreamSubset) ∧
+      (p.upstreamSubset = [] → resolveUpstreams ci' p = ci'.endpoints) := by
+  obtain ⟨hmem, hpol⟩ := sync_endpoints_policies env ci ci' c hs hn
+  refine ⟨hpol, hmem, ?_⟩
+  intro p hp
+  simp only [valid, usable, classes, Bool.and_eq_true, decide_eq_true_eq, List.all_eq_true] at hv
+  have href := hv.1.1.1.1.2.2 p hp
+  simp only [policyRefsOK, Bool.and_eq_true, List.all_eq_true, List.contains_iff_mem] at href
+  refine ⟨?_, by intro h; simp [resolveUpstreams, h], by intro h; simp [resolveUpstreams, h]⟩
+  unfold loadedUpstreams
+  apply List.filter_eq_self.mpr
+  intro u hu
+  simp only [List.contains_iff_mem]
+  unfold resolveUpstreams at hu
+  split at hu
+  · exact (hmem u).mpr (href.1 u hu)
+  · exact hu
+
 end KG.Lemmas.Validate
